@@ -5,6 +5,7 @@ import TapkeeVerif.Model.Spe
 import TapkeeVerif.Gen.SpeVariant
 import TapkeeVerif.Model.RandProj
 import TapkeeVerif.Model.Fa
+import TapkeeVerif.Model.RandomHpp
 /-! Line-protocol driver for the C19 models (SPE, Random Projection, Factor Analysis) at `K := Rat`.
 
     spe   N= d= g= nup= T= tol= mode=idx|full [nb=] dm= [y0=] [unif=] perms= [yobs=]
@@ -243,6 +244,63 @@ def answerFa (fs : List (String × String)) : String :=
     s!"ycmp={ycmp} span={span} colmean={colmean}"
   | _, _, _, _, _, _, _, _ => "bad-case"
 
+/-! ### defines/random.hpp -/
+
+/-- `grand n= used=<rand() values the implementation consumed> calls= rad= L= S= gobs=`:
+    the polar method on the same stream — draws consumed per variate, accepted radius, returned value from the
+    implementation's own log/sqrt values (checked against the oracle contracts) -/
+def answerGrand (fs : List (String × String)) : String :=
+  match field? fs "n" >>= String.toNat?, field? fs "used" >>= parseNats, field? fs "calls" >>= parseNats,
+        field? fs "rad" >>= parseRats, field? fs "L" >>= parseRats, field? fs "S" >>= parseRats,
+        field? fs "gobs" >>= parseRats with
+  | some n, some used, some calls, some rad, some L, some S, some gobs =>
+    let usedA := used.toArray
+    let rand : Nat → Nat := fun c => usedA.getD c 0
+    let rec go (todo i c : Nat) (acc : List String) : List String :=
+      match todo with
+      | 0 => acc.reverse
+      | todo + 1 =>
+        let l := (L.toArray).getD i 0
+        let sq := (S.toArray).getD i 0
+        match RandomHpp.polarLoop (K := Rat) rand (usedA.size + 2) c with
+        | none => (s!"v{i}:model-does-not-return" :: acc).reverse
+        | some (_x, radius, c') =>
+          if c' > usedA.size then (s!"v{i}:model-needs-more-draws" :: acc).reverse else
+          let callsOk := (calls.toArray).getD i 0 == c'
+          let rcmp := cmpRows [[(rad.toArray).getD i 0]] [[radius]]
+          let value := (RandomHpp.gaussianRandom (K := Rat) rand (fun _ => sq) (fun _ => l) (usedA.size + 2) c).map (·.1)
+          let vcmp := match value with
+            | some v => cmpRows [[(gobs.toArray).getD i 0]] [[v]]
+            | none => "none"
+          -- oracle contracts on the implementation's values: log negative on (0,1), sqrt >= 0 with s*s = argument
+          let arg := -2 * l / radius
+          let contract := decide (l < 0) && decide (0 ≤ sq) &&
+            decide (ratAbs (sq * sq - arg) ≤ (2 : Rat) ^ (-40 : Int) * (if arg < 1 then 1 else arg))
+          let okAll := callsOk && (rcmp == "eq" || rcmp.startsWith "approx") && (vcmp == "eq" || vcmp.startsWith "approx")
+            && contract
+          if okAll then go todo (i + 1) c' acc
+          else go todo (i + 1) c'
+            (s!"v{i}:calls={if callsOk then "ok" else s!"model{c'}"},radius={rcmp},value={vcmp},contract={contract}" :: acc)
+    let bad := go n 0 0 []
+    if bad.isEmpty then s!"ok n={n}" else "DIFF " ++ String.intercalate " " (bad.take 4)
+  | _, _, _, _, _, _, _ => "bad-case"
+
+def answerUrand (fs : List (String × String)) (index : Bool) : String :=
+  match field? fs "used" >>= parseNats with
+  | some used =>
+    if index then
+      match field? fs "upper" >>= String.toNat?, field? fs "uobs" >>= parseNats with
+      | some upper, some uobs =>
+        if used.map (RandomHpp.uniformIndexBounded · upper) == uobs then "ok" else "DIFF"
+      | _, _ => "bad-case"
+    else
+      match field? fs "uobs" >>= parseRats with
+      | some uobs =>
+        let m : List Rat := used.map (RandomHpp.uniformRandom (K := Rat))
+        if m == uobs then (if m.all (fun u => decide (0 ≤ u) && decide (u < 1)) then "ok" else "RANGE") else "DIFF"
+      | none => "bad-case"
+  | none => "bad-case"
+
 def answer (line : String) : String :=
   let fs := fields line
   if line.startsWith "spedef " then answerSpeDef fs
@@ -250,6 +308,9 @@ def answer (line : String) : String :=
   else if line.startsWith "rp " then answerRp fs true
   else if line.startsWith "rpobs " then answerRp fs false
   else if line.startsWith "fa " then answerFa fs
+  else if line.startsWith "grand " then answerGrand fs
+  else if line.startsWith "urand " then answerUrand fs false
+  else if line.startsWith "uidx " then answerUrand fs true
   else "bad-op"
 
 def main : IO Unit := runLines answer
